@@ -143,7 +143,8 @@ def custom_task(task, st, runmod):
                             continue
                         if other.get(name) != raw:
                             runmod.add_violation(st, P_as(PROP), reps[ri], mode, outs[ri][0][k], task['src'] + ':' + name, '%s gives %s' % (reps[ri].name, other.get(name)),
-                                                 '%s gives %s' % (reps[0].name, raw), 'representations of the same width disagree')
+                                                 '%s gives %s' % (reps[0].name, raw), 'representations of the same width disagree',
+                                                 extra={'kind': 'same', 'src': task['src'], 'name': name, 'requests': [outs[0][0][k], outs[ri][0][k]]})
                 cname = 'same-width %d bits via %s' % (task['width'], task['src'])
                 st['classes'][cname if nontrivial else 'plain:' + cname] += 1
                 if nontrivial:
@@ -195,7 +196,8 @@ def custom_task(task, st, runmod):
                     st['ops'][src + ':' + key + ' (narrow vs wide)'] += 1
                     if wb[key][1] != PANIC:
                         runmod.add_violation(st, P_as(PROP), nar, mode, res[0][0][k], src + ':' + key + ' (narrow vs wide)', '%s panics' % nar.name,
-                                             '%s gives %s on the same values' % (wide.name, wb[key][0]), 'extension into a wider type does not commute with the operation')
+                                             '%s gives %s on the same values' % (wide.name, wb[key][0]), 'extension into a wider type does not commute with the operation',
+                                             extra={'kind': 'wide', 'src': src, 'name': key, 'requests': [res[0][0][k], res[1][0][k]]})
                     continue
                 if no is None:
                     continue
@@ -207,7 +209,8 @@ def custom_task(task, st, runmod):
                 hit = True
                 if not matches(expect, wb[key][1]):
                     runmod.add_violation(st, P_as(PROP), wide, mode, res[1][0][k], src + ':' + key + ' (narrow vs wide)', '%s gives %s' % (wide.name, wb[key][0]),
-                                         '%s gives %r' % (nar.name, no), 'extension into a wider type does not commute with the operation')
+                                         '%s gives %r' % (nar.name, no), 'extension into a wider type does not commute with the operation',
+                                         extra={'kind': 'wide', 'src': src, 'name': key, 'requests': [res[0][0][k], res[1][0][k]]})
             cname = 'narrow->wide via %s' % src
             st['classes'][cname if hit else 'plain:' + cname + ' (narrow result not representable, nothing to compare)'] += 1
             if hit:
@@ -291,3 +294,44 @@ def floors(st, tier):
     if st['classes'].get('constants of a configuration', 0) == 0:
         out.append('constants not observed')
     return out
+
+
+def replay(runmod, v):
+    """re-executes the two recorded requests (same values on two representations / on the narrow and the wide type) and compares again"""
+    ex = v.get('extra')
+    if not ex:
+        if v['op'].startswith('const:'):
+            paths, _ = runmod.build([BIN], v['mode'])
+            hdr, resp = runmod.run_driver(paths[BIN], v['request'] + '\n', 300)
+            print('request : ' + v['request'])
+            print('response: ' + resp[0][:2000])
+            print('[C16] compare with the expected constant by eye: %s' % v['expected'])
+            return 0
+        print('INCONCLUSIVE property=C16 reason=replay file has no request pair')
+        return 2
+    P = importlib.import_module('props.' + ex['src'])
+    full = any(r.split()[0] not in core.cfg_names(False) for r in ex['requests'])
+    paths, _ = runmod.build([P.BIN], v['mode'], full=full)
+    hdr, resp = runmod.run_driver(paths[P.BIN], '\n'.join(ex['requests']) + '\n', 600)
+    outs = [dict((n, (r, o)) for n, r, o in parse_part(_bnum_part(x))) for x in resp]
+    for q, x in zip(ex['requests'], resp):
+        print('request : ' + q[:500])
+        print('response: ' + _bnum_part(x)[:1500])
+    name = ex['name']
+    a, b = outs[0].get(name), outs[1].get(name)
+    if ex['kind'] == 'same':
+        bad = a is None or b is None or a[0] != b[0]
+    else:
+        nar = core.Cfg(ex['requests'][0].split()[0])
+        if a is None or b is None:
+            bad = True
+        elif a[1] == PANIC:
+            bad = b[1] != PANIC
+        else:
+            bad = not matches(_to_values(a[1], nar), b[1])
+    if bad:
+        print('VIOLATION property=C16 replay=(this file)')
+        print('    %s: %s vs %s' % (name, a and a[0], b and b[0]))
+        return 1
+    print('[C16] replayed pair agrees now')
+    return 0
